@@ -1390,6 +1390,13 @@ class TLSConnection(TLSRecordLayer):
             sr_handshake_traffic_secret,
             settings.cipherImplementations)
 
+        # nothing may follow the ServerHello in its (unprotected) record
+        if not self._defragmenter.is_empty():
+            for result in self._sendError(
+                    AlertDescription.unexpected_message,
+                    "ServerHello not aligned with record boundary"):
+                yield result
+
         self._changeReadState()
 
         for result in self._getMsg(ContentType.handshake,
@@ -3314,6 +3321,13 @@ class TLSConnection(TLSRecordLayer):
         self._queue_message(finished)
         for result in self._queue_flush():
             yield result
+
+        # nothing may follow the ClientHello in its (unprotected) record
+        if not self._defragmenter.is_empty():
+            for result in self._sendError(
+                    AlertDescription.unexpected_message,
+                    "ClientHello not aligned with record boundary"):
+                yield result
 
         self._changeReadState()
 
